@@ -3705,9 +3705,19 @@ class Fused(Blockwise):
         graph = {self._name: (self.exprs[0]._name, index)}
         for _expr in self.exprs:
             if isinstance(_expr, Fused):
-                subgraph, name = _expr._task(index)[1:3]
-                graph.update(subgraph)
-                graph[(name, index)] = name
+                # A nested group that is being broadcasted only exists for index 0
+                _index = 0 if self._broadcast_dep(_expr) else index
+                subgraph, name = _expr._task(_index)[1:3]
+                # The inputs of the nested group are members or inputs of this
+                # group; its placeholders count the inputs differently
+                graph.update(
+                    {
+                        key: task
+                        for key, task in subgraph.items()
+                        if not _is_fused_placeholder(task)
+                    }
+                )
+                graph[(name, _index)] = name
             elif self._broadcast_dep(_expr):
                 # When _expr is being broadcasted, we only
                 # want to define a fused task for index 0
@@ -3716,7 +3726,7 @@ class Fused(Blockwise):
                 graph[(_expr._name, index)] = _expr._task(index)
 
         for i, dep in enumerate(self.dependencies()):
-            graph[self._blockwise_arg(dep, index)] = "_" + str(i)
+            graph[self._blockwise_arg(dep, index)] = _fused_placeholder(i)
 
         return (
             Fused._execute_task,
@@ -3727,8 +3737,24 @@ class Fused(Blockwise):
     @staticmethod
     def _execute_task(graph, name, *deps):
         for i, dep in enumerate(deps):
-            graph["_" + str(i)] = dep
+            # The inputs are values, not tasks to execute
+            graph[_fused_placeholder(i)] = (dask.core.literal(dep),)
         return dask.core.get(graph, name)
+
+
+def _fused_placeholder(i):
+    # Key of the i-th input in the graph of a fused task; must not be
+    # mistaken for an operand of one of the fused operations
+    return ("__dask_expr_fused_input__", i)
+
+
+def _is_fused_placeholder(task):
+    return (
+        isinstance(task, tuple)
+        and len(task) == 2
+        and isinstance(task[0], str)
+        and task[0] == "__dask_expr_fused_input__"
+    )
 
 
 # Used for sorting with None
